@@ -223,21 +223,21 @@ def amalgamation(run):
 
 
 def run(run):
-    matrix(run, run.tier)
-    amalgamation(run)
+    run.guard('matrix', matrix, run, run.tier)
+    run.guard('amalgamation', amalgamation, run)
     try:
         from rules import c19_diff
     except ImportError:
         c19_diff = None
     if c19_diff:
         try:
-            c19_diff.run(run)
+            run.guard('run', c19_diff.run, run)
             # the two logging switches: the same differential C16.d runs (function bodies equal after erasing exactly the logging
             # statements), as a clause of C19 as well
             from rules import c16 as _c16
             for a_, b_ in (('PSH', 'PSHL'), ('PH', 'PHV')):
                 for v_ in facts.variants(run.tier):
-                    _c16.differential(run, a_, b_, v_)
+                    run.guard('differential', _c16.differential, run, a_, b_, v_)
             run.relabel('C16.d', 'C19.b')
         except AnalysisBroken as e:
             # a configuration that does not compile is already reported by the matrix (C19.a); the differential needs facts of that
